@@ -1,5 +1,5 @@
 import UF.Spec.Match
-namespace UF
+namespace UF.E
 open Bytes
 
 theorem cmp_refl (a : Bytes) : Bytes.cmp a a = .eq := by
@@ -351,4 +351,4 @@ theorem bsearch_iff (xs : List Bytes) (x : Bytes) (h : SortedB xs) :
   · omega
   · omega
 
-end UF
+end UF.E
